@@ -31,6 +31,7 @@ import os
 import random
 import shutil
 import tempfile
+import time
 import warnings
 
 import numpy as np
@@ -348,7 +349,7 @@ def ob_boo3(R, tmp):
     nf = os.path.join(tmp, "nb3.dat")
     write_nb(nf, R.nb)
     out = {}
-    for l in (4, 6):
+    for l in ((6,) if R.n > 40 else (4, 6)):       # big inputs: l = 6 only (speed)
         with np.errstate(all="ignore"):
             b = boo_3d(R.snaps, l, nf, ppp=R.ppp, Nmax=30)
             out[f"q{l}"] = b.ql_Ql(coarse_graining=False)
@@ -828,11 +829,13 @@ def replay_group(job):
         for name in obs:
             key = (label, name, word_kinds(it["word"]))
             detail = {"input": ident, "observable": name, "word": it["word"]}
+            t_start = time.time()
             s0, r0 = base_obs(name)
             if s0 == "raises":
                 res.append(("violation", f"raises:{name}:base:{r0.split(':')[0]}", dict(detail, error=r0), key))
                 continue
             s1, r1 = compute(name, cfg2, R2)
+            res.append(("time", time.time() - t_start, None, key))
             if s1 == "raises":
                 res.append(("violation", f"raises:{name}:{r1.split(':')[0]}", dict(detail, error=r1), key))
                 continue
@@ -892,9 +895,10 @@ def trace_record(name, cfg, cfg2, word, r0, r1, ctx):
         if b is None or i is None or len(r0) != len(r1):
             return None       # left to the direct comparison (reports the clause)
         return {"op": "hist", "K": len(cfg["dia"]), "word": word, "base": b, "img": i,
-                "skip": sorted(k + 1 for k in ctx["bins"] if 0 <= k < len(r0))}
-    return {"op": "sets", "N": len(cfg["types"]), "word": word, "base": r0[0], "img": r1[0],
-            "skip": sorted(i + 1 for i in ctx[name][0])}
+                "skip": sorted(int(k) + 1 for k in ctx["bins"] if 0 <= k < len(r0))}
+    return {"op": "sets", "N": len(cfg["types"]), "word": word, "base": [[int(j) for j in r] for r in r0[0]],
+            "img": [[int(j) for j in r] for r in r1[0]],
+            "skip": sorted(int(i) + 1 for i in ctx[name][0])}
 
 
 def _jsonable(d):
@@ -918,6 +922,9 @@ def collect(chk, results, covered, trace):
         for verdict, clause, detail, key in group:
             if verdict == "trace":
                 trace.append((clause, detail, key))
+            elif verdict == "time":
+                tb = chk.extra.setdefault("cpu_s_by_observable", {})
+                tb[key[0] + ":" + key[1]] = round(tb.get(key[0] + ":" + key[1], 0.0) + clause, 2)
             elif verdict == "ok":
                 covered.add(key[1:])
                 chk.ok(key, sample=detail)
@@ -983,15 +990,7 @@ def select_small(cases, tier):
         if new and len(picked) < 90:
             picked.append(c)
             have |= new
-    # thin out the single-generator words per base: keep all kinds on every base, one instance of each
-    seen, keep = set(), []
-    rng.shuffle(ones)
-    for c in ones:
-        k = (c["base"], c["word"][0]["kind"], c["word"][0].get("wrap"), c["word"][0].get("box"))
-        if k in seen and rng.random() < 0.5:
-            continue
-        seen.add(k)
-        keep.append(c)
+    keep = ones          # every single-generator word of the catalogue on every base
     return keep + picked
 
 
